@@ -23,7 +23,7 @@ import (
 // TestC15Race drives a node as concurrently as the API allows; the oracle is the Go race detector
 // (the binary is built with -race by the driver; a report makes the test fail).
 func TestC15Race(t *testing.T) {
-	rec := evid.New(t, "C15", "maximally concurrent scenarios under the Go race detector: 3..5 channels (custom transports, TCP-server and UDP-server peers), 3..6 API goroutines mixing all six Write* calls, a router goroutine that edits received frames, calls FixFrame and forwards them with WriteFrameExcept, a consumer, heartbeats every 2-5 ms, stream requests triggered by ArduPilot heartbeats from several senders on several channels, peers connecting and leaving (also while Close is under way), rejected input producing parse-error events, a consumer that keeps the last events and reads them again later, and Close racing with all of it; any DATA RACE report whose stack includes a gomavlib package is a violation; non-trivial = >=2 API goroutines and >=2 channel readers active in overlapping intervals (measured from the harness timeline); distinct by hash of the scenario parameters")
+	rec := evid.New(t, "C15", "maximally concurrent scenarios under the Go race detector: 3..5 channels (custom transports, TCP-server and UDP-server peers), 3..6 API goroutines mixing all six Write* calls, a router goroutine that edits received frames, calls FixFrame and forwards them with WriteFrameExcept, a consumer, heartbeats every 2-5 ms, stream requests triggered by ArduPilot heartbeats from several senders on several channels, peers connecting and leaving (also while Close is under way), rejected input producing parse-error events, a consumer that keeps the last events and reads them again later, a second node created on the same dialect object in mid-run, and Close racing with all of it; any DATA RACE report whose stack includes a gomavlib package is a violation; non-trivial = >=2 API goroutines and >=2 channel readers active in overlapping intervals (measured from the harness timeline); distinct by hash of the scenario parameters")
 	rec.Require("overlapping-api-and-readers", "close-racing", "tcp-peer-connecting-during-close", "kept-events-read-again")
 	hbLay, _ := ref.LayoutOf(refTypeOf(&minimal.MessageHeartbeat{}))
 	evid.Check(t, rec, evid.N(60, 250), func(t *rapid.T) {
@@ -250,7 +250,26 @@ func TestC15Race(t *testing.T) {
 				}
 			}(g)
 		}
-		time.Sleep(runFor)
+		// a second node of the same process, created while the first is in full swing: it uses the same dialect
+		// object (dialects are shared package-level values) with other heartbeat settings
+		time.Sleep(runFor / 3)
+		p2 := sim.NewPipe()
+		n2 := &gomavlib.Node{Endpoints: []gomavlib.EndpointConf{gomavlib.EndpointCustom{ReadWriteCloser: p2}}, Dialect: ardupilotmega.Dialect,
+			OutVersion: gomavlib.V2, OutSystemID: nodeSys + 1, HeartbeatPeriod: hbPeriod, HeartbeatSystemType: 13, HeartbeatAutopilotType: 8, StreamRequestEnable: true}
+		if err := n2.Initialize(); err != nil {
+			t.Fatalf("BROKEN: second node: %v", err)
+		}
+		n2done := make(chan struct{})
+		go func() {
+			defer close(n2done)
+			for range n2.Events() {
+			}
+		}()
+		defer func() {
+			closeNode(n2, bound) //nolint:errcheck
+			<-n2done
+		}()
+		time.Sleep(runFor - runFor/3)
 		if nudp > 0 && knownFinding("pion-udp-accept-close-race") {
 			// known finding (see known_findings.txt): Close while a new UDP peer's first datagram is pending
 			// acceptance trips a WaitGroup misuse inside pion/transport. Excluded by construction while listed:
